@@ -292,6 +292,7 @@ SERVER_PRIORITY = {
     "id_desc": lambda srv, ind: -srv.id_number,
     "busy_time": lambda srv, ind: srv.busy_time,
     "id_parity": lambda srv, ind: (srv.id_number + ind.id_number) % 2,
+    "last_resort": lambda srv, ind: 0 if srv.id_number % 2 else float("inf"),      # even-numbered servers only when nothing else is free
 }
 DISCIPLINES = {"FIFO": ciw.disciplines.FIFO, "LIFO": ciw.disciplines.LIFO, "SIRO": ciw.disciplines.SIRO}
 
